@@ -199,6 +199,9 @@ func (r *Run) do(op Op) {
 				}
 			}
 		}
+	case "elect": // the others vote the node into the next view it leads
+		rec.AbsV, rec.Forwarded = h.SendVotes()
+		rec.AbsH = h0
 	case "flood":
 		rec.Returned = h.Flood(op.N)
 	case "release":
